@@ -406,11 +406,22 @@ func formatAgreement(c *core.Ctx, cf *cfg, m *lmetric, o *obs, cons bool, t0 int
 			ns = cf.reqNs
 		}
 		b, err := parseInflux(cf, ns, []string{line})
+		if strings.Contains(line, "\\") {
+			c.Branch("influx-line-with-escapes")
+		}
+		if strings.Contains(line, "\\\\") {
+			c.Branch("influx-line-with-backslash-run")
+		}
 		switch {
 		case err != nil || b.Len() != 1:
-			c.Branch("influx-rejects-what-proto-accepts")
 			if os.Getenv("VERIF_C16_DEBUG") != "" {
 				fmt.Fprintf(os.Stderr, "influx rejects %q err=%v lim=%+v\n", line, err, cf.lim)
+			}
+			if len(m.tags) == 0 && len(m.fields) > 1 {
+				// recorded observation (outside C16): a line without tags and with ≥ 2 fields is rejected
+				c.Branch("influx-rejects-tagless-multifield-line")
+			} else {
+				c.Fail("influx-valid-row-dropped", fmt.Sprintf("the protobuf path stores this metric, its line-protocol form %q is dropped (err=%v)", line, err))
 			}
 		default:
 			o2, mism := observe(&b.Rows()[0])
@@ -419,10 +430,42 @@ func formatAgreement(c *core.Ctx, cf *cfg, m *lmetric, o *obs, cons bool, t0 int
 			} else {
 				c.Branch("influx-agreement-checked")
 				nsDiffers = false
+				// name / tags / fields against the logical metric …
+				if o2.name != sanitizeName(m.name) || !sameTagSet(o2.tags, sent(cf, m)) && cons {
+					c.Fail("influx-escape-row-differs", fmt.Sprintf("line %q is stored as name %q tags %s; sent name %q tags %s", line, o2.name, concatTags(o2.tags), m.name, concatTags(sent(cf, m))))
+				}
+				checkCanonical(c, "influx", cf, m, o2, t0, fasttime.UnixMilliseconds())
+				// … and against the row of the protobuf path
 				cmp("influx", o2)
 			}
 		}
 	}
+}
+
+func sent(cf *cfg, m *lmetric) []ltag {
+	ts, _ := allTags(cf, m)
+	return ts
+}
+
+// sameTagSet: the stored tags are exactly the distinct sent pairs (for consistent tag lists).
+func sameTagSet(stored, sentTags []ltag) bool {
+	a := map[ltag]bool{}
+	for _, t := range stored {
+		a[t] = true
+	}
+	b := map[ltag]bool{}
+	for _, t := range sentTags {
+		b[t] = true
+	}
+	if len(a) != len(b) || len(a) != len(stored) {
+		return false
+	}
+	for t := range a {
+		if !b[t] {
+			return false
+		}
+	}
+	return true
 }
 
 // ---------------------------------------------------------------- witnesses (deterministic)
